@@ -23,6 +23,19 @@ func (sim *Simulation) IsValid(target key.TargetID) bool {
 	return false
 }
 
+// onField reports whether the target is still part of the battle, i.e. it has not been removed by
+// a death check
+func (sim *Simulation) onField(target key.TargetID) bool {
+	for _, list := range [][]key.TargetID{sim.characters, sim.enemies, sim.neutrals} {
+		for _, id := range list {
+			if id == target {
+				return true
+			}
+		}
+	}
+	return false
+}
+
 func (sim *Simulation) IsAlive(target key.TargetID) bool {
 	return sim.Attr.IsAlive(target)
 }
